@@ -28,26 +28,26 @@ type peer struct {
 	c2s *bpipe // client -> peer
 	s2c *bpipe // peer -> client
 
-	mu       sync.Mutex
-	cond     *sync.Cond
-	nreq     int
-	reqs     []wframe
-	held     []heldReq        // received, not yet answered (arrival order)
-	hold     bool             // true: requests are kept until the script answers them
-	files    map[string][]byte // handle -> content
-	fileSize int               // size of generated files
-	readdirN map[string]int
-	failOff  map[string]uint32 // "R:<off>" / "W:<off>" -> status code to answer with
-	inPump   int               // requests taken out of `held` by the pump and not yet answered
-	badBytes []int             // every READ/WRITE whose range contains one of these positions fails with "E@<lowest>"
-	replyFn  func(p *peer, f wframe) []byte // override for reply synthesis (nil = default)
-	mutate   func(f wframe, reply []byte) []byte
-	quiet    bool
-	sent     int // bytes written to s2c
-	ends     map[uint32]int // request id -> end offset (in s2c) of its reply
-	desync   bool
-	exts     [][2]string
-	version  uint32
+	mu         sync.Mutex
+	cond       *sync.Cond
+	nreq       int
+	reqs       []wframe
+	held       []heldReq         // received, not yet answered (arrival order)
+	hold       bool              // true: requests are kept until the script answers them
+	files      map[string][]byte // handle -> content
+	fileSize   int               // size of generated files
+	readdirN   map[string]int
+	failOff    map[string]uint32              // "R:<off>" / "W:<off>" -> status code to answer with
+	inPump     int                            // requests taken out of `held` by the pump and not yet answered
+	badBytes   []int                          // every READ/WRITE whose range contains one of these positions fails with "E@<lowest>"
+	replyFn    func(p *peer, f wframe) []byte // override for reply synthesis (nil = default)
+	mutate     func(f wframe, reply []byte) []byte
+	quiet      bool
+	sent       int            // bytes written to s2c
+	ends       map[uint32]int // request id -> end offset (in s2c) of its reply
+	desync     bool
+	exts       [][2]string
+	version    uint32
 	readerDone chan struct{}
 	closeOnEOF bool
 }
@@ -89,11 +89,11 @@ func (p *peer) fileCopy(h string) []byte {
 }
 
 // expected values a caller can compute for itself
-func peerStatSize(path string) uint64 { return uint64(hash32("S"+path) % 1000000) }
-func peerHandle(path string) string   { return "H" + path }
+func peerStatSize(path string) uint64  { return uint64(hash32("S"+path) % 1000000) }
+func peerHandle(path string) string    { return "H" + path }
 func peerDirHandle(path string) string { return "D" + path }
-func peerLink(path string) string     { return "L" + path }
-func peerReal(path string) string     { return "/R/" + path }
+func peerLink(path string) string      { return "L" + path }
+func peerReal(path string) string      { return "/R/" + path }
 
 // firstBad returns the lowest bad byte in [off, off+n), or -1.
 func (p *peer) firstBad(off uint64, n int) int {
